@@ -6,7 +6,7 @@ import json
 import os
 import random
 
-from . import core, gen, hist, jsoncheck, model, realrun, wire
+from . import core, gen, hist, jsoncheck, model, realrun, threadcheck, wire
 
 ALL = ['C%02d' % i for i in range(1, 19)]
 
@@ -235,8 +235,15 @@ def check_C07(tier):
 
 
 def check_C08(tier):
-    return run_hist_prop('C08', tier, 8, 500, 30000, families=[gen.scen_dups, gen.scen_nested_failure], per_family=(120, 3000),
-                         prof=RICH_ARGS, p_fail=0.1)
+    rep = core.Report('C08', tier)
+    gate = core.proof_gate(THEOREMS['C08'], tier)
+    ds = measure()
+    cases = corpus_cases(ds) + gen.gen_scenario_cases(core.seed() * 31 + 8, budget(tier, 120, 3000), ds, [gen.scen_dups, gen.scen_nested_failure])
+    cases += random_cases(tier, 500, 30000, 8, prof=RICH_ARGS, dirsize=ds, p_fail=0.1)
+    explore('C08', tier, rep, cases)
+    # the thread clause: two threads issuing the same key, every schedule up to the preemption bound
+    explore_threads('C08', tier, rep, ['dup_file', 'dup_sub', 'dup_sub_cached'], budget(tier, 2, 3), budget(tier, 600, 8000))
+    return finish('C08', rep, gate)
 
 
 def check_C10(tier):
@@ -406,10 +413,99 @@ def check_C18(tier):
     return finish('C18', rep, gate)
 
 
+def explore_threads(prop, tier, rep, names, bound, cap):
+    """systematic schedule exploration of the named thread scenarios on the real code"""
+    S = threadcheck.scenarios()
+    rng = random.Random(core.seed() * 17 + 9)
+    total = 0
+    edges = set()
+    reported = set()
+    for name in names:
+        n, fails, e, maxdec, nseq = threadcheck.explore_scenario(name, S[name], bound, cap, rng)
+        total += n
+        edges |= e
+        rep.count('evaluations', n)
+        rep.count('schedules:' + name, n)
+        rep.distinct.add(name)
+        for f in fails:
+            known = core.match_known(prop, None, [f])
+            if known:
+                if known not in reported:
+                    reported.add(known)
+                    rep.known.append('%s (e.g. scenario %s, deviations %s)' % (known, name, f['deviations']))
+                rep.count('known_finding_hits')
+            elif ('v', name) not in reported:
+                reported.add(('v', name))
+                rep.violation('sched_%s' % name, {'property': prop, 'kind': 'failing-schedule', 'what': f,
+                                                  'how_to_replay': './check %s --replay <this file>' % prop},
+                              note='scenario %s differs from every sequential order in %s' % (name, f['differs_in']))
+    # lock order: acquisitions while holding another lock must follow one strict order (deadlock freedom)
+    order_ok = all(a < b for a, b in edges) or all(a > b for a, b in edges)
+    cyc = [(a, b) for a, b in edges if (b, a) in edges]
+    if cyc:
+        rep.violation('lockorder', {'property': prop, 'kind': 'lock-order-cycle', 'edges': sorted(edges)}, note='locks are acquired in both orders: %s' % cyc[:2])
+    rep.coverage.update({'schedules': total, 'lock_order_edges': sorted(edges), 'preemption_bound': bound,
+                         'scenarios': list(names)})
+    rep.samples.append({'scenario': names[0], 'threads': [b.label for b in S[names[0]]['threads']], 'bound': bound})
+    return total
+
+
+C09_SCENARIOS = ['shared_new_dir', 'shared_new_dir_deep', 'sibling_dirs', 'one_fails', 'both_fail', 'fail_alone_in_dir',
+                 'stale_dir', 'stale_dir_queries', 'queries_vs_build', 'subbuilds', 'three_threads', 'dup_file', 'dup_sub',
+                 'dup_sub_cached']
+
+
+def check_C09(tier):
+    rep = core.Report('C09', tier, level='exploration')
+    gate = core.proof_gate(THEOREMS['C09'], tier)
+    explore_threads('C09', tier, rep, C09_SCENARIOS, budget(tier, 1, 2), budget(tier, 400, 6000))
+    return finish('C09', rep, gate)
+
+
+def check_C17(tier):
+    rep = core.Report('C17', tier, level='exploration')
+    gate = core.proof_gate(THEOREMS['C17'], tier)
+    reported = set()
+    total = 0
+    for owner in threadcheck.OWNERS:
+        for m in threadcheck.METHODS:
+            # the sequential fence: a call that starts after the owner has returned
+            o, _ = threadcheck.run_fence(owner, m, None, after=True)
+            pr = threadcheck.judge_fence(owner, m, o)
+            if o['straggler'] is None or o['straggler'][:2] != ['RuntimeError', 'finished']:
+                pr.append({'what': 'a call after the close did not raise RuntimeError', 'res': o['straggler']})
+            if pr:
+                rep.violation('fence_seq_%s_%s' % (owner, m), {'property': 'C17', 'kind': 'failing-input', 'owner': owner, 'method': m, 'problems': pr},
+                              note='%s builder, %s after the close: %s' % (owner, m, pr[0]['what']))
+            n = 0
+            for dev, o, s in threadcheck.sched.explore(lambda d: threadcheck.run_fence(owner, m, d), budget(tier, 2, 3), budget(tier, 150, 3000)):
+                n += 1
+                pr = threadcheck.judge_fence(owner, m, o)
+                if not pr:
+                    continue
+                f = {'owner': owner, 'method': m, 'deviations': {str(k): v for k, v in dev.items()}, 'straggler': o['straggler'], 'problems': pr}
+                known = core.match_known('C17', None, [f])
+                if known:
+                    if known not in reported:
+                        reported.add(known)
+                        rep.known.append('%s (e.g. %s builder, straggler %s, deviations %s)' % (known, owner, m, f['deviations']))
+                    rep.count('known_finding_hits')
+                elif (owner, m) not in reported:
+                    reported.add((owner, m))
+                    rep.violation('fence_%s_%s' % (owner, m), dict(f, property='C17', kind='failing-schedule'),
+                                  note='%s builder, straggler %s: %s' % (owner, m, pr[0]['what']))
+            total += n
+            rep.count('evaluations', n + 1)
+            rep.distinct.add(owner + ':' + m)
+    rep.coverage.update({'schedules': total, 'owners': threadcheck.OWNERS, 'methods': threadcheck.METHODS})
+    rep.samples.append({'owner': 'subbuild', 'method': 'build_file', 'schedule': 'deviations {12: straggler, 13: owner}'})
+    return finish('C17', rep, gate)
+
+
 def check_TIE(tier): return run_hist_prop('TIE', tier, 99, 800, 40000)
 
 
-CHECKS = {'TIE': check_TIE, 'C01': check_C01, 'C02': check_C02, 'C03': check_C03, 'C04': check_C04, 'C05': check_C05,
+CHECKS = {'TIE': check_TIE, 'C09': check_C09, 'C17': check_C17, 'C01': check_C01, 'C02': check_C02, 'C03': check_C03, 'C04': check_C04, 'C05': check_C05,
           'C06': check_C06, 'C07': check_C07, 'C08': check_C08, 'C10': check_C10, 'C12': check_C12, 'C13': check_C13,
           'C15': check_C15, 'C16': check_C16, 'C18': check_C18}
 
